@@ -82,20 +82,21 @@ theorem memberEntries_append (modname cname : Str) (a b : List (Str × Item)) :
   | nil => rfl
   | cons x xs ih => obtain ⟨k, it⟩ := x; simp [memberEntries, ih]
 
-theorem target_funcItem (modname : Str) (decos : List Deco) (doc : Option Doc) :
-    (funcItem modname decos doc).target = ownFacts modname doc := by
+theorem target_funcItem (modname other : Str) (decos : List Deco) (doc : Option Doc) :
+    (funcItem modname other decos doc).target = ownFacts modname (globalsOf modname other decos) doc := by
   unfold Item.target funcItem
   cases wrapOf decos <;> rfl
 
-@[simp] theorem ownFacts_hasName (modname : Str) (doc : Option Doc) : (ownFacts modname doc).hasName = true := rfl
-@[simp] theorem ownFacts_doc (modname : Str) (doc : Option Doc) :
-    (ownFacts modname doc).doc = doc.map (·.text) := rfl
-@[simp] theorem funcItem_valid (modname : Str) (decos : List Deco) (doc : Option Doc) :
-    (funcItem modname decos doc).valid = true := rfl
-@[simp] theorem funcItem_self (modname : Str) (decos : List Deco) (doc : Option Doc) :
-    (funcItem modname decos doc).self = ownFacts modname doc := rfl
+@[simp] theorem ownFacts_hasName (modname g : Str) (doc : Option Doc) : (ownFacts modname g doc).hasName = true := rfl
+@[simp] theorem ownFacts_doc (modname g : Str) (doc : Option Doc) :
+    (ownFacts modname g doc).doc = doc.map (·.text) := rfl
+@[simp] theorem funcItem_valid (modname other : Str) (decos : List Deco) (doc : Option Doc) :
+    (funcItem modname other decos doc).valid = true := rfl
+@[simp] theorem funcItem_self (modname other : Str) (decos : List Deco) (doc : Option Doc) :
+    (funcItem modname other decos doc).self = ownFacts modname (globalsOf modname other decos) doc := rfl
 
-theorem definedBy_own (modname : Str) (doc : Option Doc) : definedBy modname (ownFacts modname doc) = true := by
+/-- `__module__` decides: whatever namespace the object was compiled in -/
+theorem definedBy_own (modname g : Str) (doc : Option Doc) : definedBy modname (ownFacts modname g doc) = true := by
   simp [definedBy, ownFacts]
 
 theorem definedBy_external (modname other : Str) (h : other ≠ modname) :
